@@ -1,5 +1,7 @@
 SPECIFICATION Spec
 CONSTANTS MaxH = 8
+ EmitCases = TRUE
  YPad = "top"
 INVARIANT BlockDepSafe
+INVARIANT Cases
 CHECK_DEADLOCK FALSE
